@@ -68,6 +68,10 @@ def impl_eval(case):
     if back != recs or exc is not None:
         why = (f'after {len(recs)} writes and finalisations {case["fins"]!r} the file reads back as {len(back)} '
                f'records ({render_end(exc)})')
+    if why is None and blocked and (len(data) == 0 or len(data) % 1014
+                                    or any(data[i + 1012:i + 1014] != b'@@' for i in range(0, len(data), 1014))):
+        why = (f'the finalised blocked file ({len(data)} bytes after {len(recs)} writes) is not a whole number of 1014-byte '
+               f'blocks with their trailers')
     canon = data
     if blocked and len(data) >= 1014 and data[-1014:] == b'\x40' * 1014:
         canon = data[:-1014]
